@@ -1,1 +1,181 @@
-//! stub
+//! The harness' own expression tree and its renderers.
+
+use super::{lit, V};
+use serde::{Deserialize, Serialize};
+
+#[derive(Clone, Copy, Debug, PartialEq, Eq, Serialize, Deserialize)]
+pub enum Op {
+    Add,
+    Sub,
+    Mul,
+    Div,
+    Rem,
+    Eq,
+    Ne,
+    Lt,
+    Le,
+    Gt,
+    Ge,
+    In,
+    And,
+    Or,
+}
+
+impl Op {
+    pub fn text(self) -> &'static str {
+        match self {
+            Op::Add => "+",
+            Op::Sub => "-",
+            Op::Mul => "*",
+            Op::Div => "/",
+            Op::Rem => "%",
+            Op::Eq => "==",
+            Op::Ne => "!=",
+            Op::Lt => "<",
+            Op::Le => "<=",
+            Op::Gt => ">",
+            Op::Ge => ">=",
+            Op::In => "in",
+            Op::And => "&&",
+            Op::Or => "||",
+        }
+    }
+    /// precedence level, larger binds tighter (CEL.g4: expr > conditionalOr > conditionalAnd > relation > calc(+,-) > calc(*,/,%) > unary > member)
+    pub fn level(self) -> u8 {
+        match self {
+            Op::Or => 1,
+            Op::And => 2,
+            Op::Eq | Op::Ne | Op::Lt | Op::Le | Op::Gt | Op::Ge | Op::In => 3,
+            Op::Add | Op::Sub => 4,
+            Op::Mul | Op::Div | Op::Rem => 5,
+        }
+    }
+    pub const ARITH: [Op; 5] = [Op::Add, Op::Sub, Op::Mul, Op::Div, Op::Rem];
+    pub const REL: [Op; 6] = [Op::Eq, Op::Ne, Op::Lt, Op::Le, Op::Gt, Op::Ge];
+    pub const ALL: [Op; 14] = [Op::Add, Op::Sub, Op::Mul, Op::Div, Op::Rem, Op::Eq, Op::Ne, Op::Lt, Op::Le, Op::Gt, Op::Ge, Op::In, Op::And, Op::Or];
+}
+
+#[derive(Clone, Copy, Debug, PartialEq, Eq, Serialize, Deserialize)]
+pub enum Mac {
+    All,
+    Exists,
+    ExistsOne,
+    /// the camel-case spelling `existsOne`
+    ExistsOneCamel,
+    Map,
+    Filter,
+}
+
+impl Mac {
+    pub fn name(self) -> &'static str {
+        match self {
+            Mac::All => "all",
+            Mac::Exists => "exists",
+            Mac::ExistsOne => "exists_one",
+            Mac::ExistsOneCamel => "existsOne",
+            Mac::Map => "map",
+            Mac::Filter => "filter",
+        }
+    }
+}
+
+#[derive(Clone, Debug, Serialize, Deserialize)]
+pub enum E {
+    Lit(V),
+    Var(String),
+    Not(Box<E>),
+    Neg(Box<E>),
+    Bin(Op, Box<E>, Box<E>),
+    Cond(Box<E>, Box<E>, Box<E>),
+    Index(Box<E>, Box<E>),
+    Select(Box<E>, String),
+    Has(Box<E>, String),
+    List(Vec<E>),
+    Map(Vec<(E, E)>),
+    /// name, receiver, arguments
+    Call(String, Option<Box<E>>, Vec<E>),
+    /// macro, range, iteration variable, body arguments (one, or two for `map(x, p, f)`)
+    Macro(Mac, Box<E>, String, Vec<E>),
+    Struct(String, Vec<(String, E)>),
+    /// verbatim source text (used by the untyped generators for odd spellings)
+    Raw(String),
+}
+
+pub fn b(e: E) -> Box<E> {
+    Box::new(e)
+}
+
+impl E {
+    pub fn lit(v: V) -> E {
+        E::Lit(v)
+    }
+    pub fn var(n: &str) -> E {
+        E::Var(n.to_string())
+    }
+    pub fn call(n: &str, args: Vec<E>) -> E {
+        E::Call(n.to_string(), None, args)
+    }
+    pub fn mcall(recv: E, n: &str, args: Vec<E>) -> E {
+        E::Call(n.to_string(), Some(b(recv)), args)
+    }
+    pub fn bin(op: Op, l: E, r: E) -> E {
+        E::Bin(op, b(l), b(r))
+    }
+
+    pub fn depth(&self) -> usize {
+        1 + self.children().iter().map(|c| c.depth()).max().unwrap_or(0)
+    }
+    pub fn size(&self) -> usize {
+        1 + self.children().iter().map(|c| c.size()).sum::<usize>()
+    }
+    pub fn children(&self) -> Vec<&E> {
+        match self {
+            E::Lit(_) | E::Var(_) | E::Raw(_) => vec![],
+            E::Not(a) | E::Neg(a) | E::Select(a, _) | E::Has(a, _) => vec![a],
+            E::Bin(_, a, c) | E::Index(a, c) => vec![a, c],
+            E::Cond(a, c, d) => vec![a, c, d],
+            E::List(xs) => xs.iter().collect(),
+            E::Map(es) => es.iter().flat_map(|(k, v)| [k, v]).collect(),
+            E::Call(_, r, args) => r.iter().map(|x| &**x).chain(args.iter()).collect(),
+            E::Macro(_, r, _, body) => std::iter::once(&**r).chain(body.iter()).collect(),
+            E::Struct(_, fs) => fs.iter().map(|(_, v)| v).collect(),
+        }
+    }
+    pub fn any(&self, p: &dyn Fn(&E) -> bool) -> bool {
+        p(self) || self.children().iter().any(|c| c.any(p))
+    }
+    pub fn count(&self, p: &dyn Fn(&E) -> bool) -> usize {
+        (if p(self) { 1 } else { 0 }) + self.children().iter().map(|c| c.count(p)).sum::<usize>()
+    }
+
+    /// Fully parenthesised rendering: every operator application is wrapped in parentheses, so the
+    /// result can stand in any operand position and the grouping is explicit.
+    pub fn render(&self) -> String {
+        match self {
+            E::Lit(v) => lit::lit(v).unwrap_or_else(|| "null".to_string()),
+            E::Var(n) => n.clone(),
+            E::Raw(s) => s.clone(),
+            E::Not(a) => format!("(!{})", a.render()),
+            E::Neg(a) => {
+                // a `-` directly before a numeric token would fold into the literal (`-0.f()` is `(-0).f()`)
+                let r = a.render();
+                if r.starts_with(|c: char| c.is_ascii_digit() || c == '.') {
+                    format!("(-({r}))")
+                } else {
+                    format!("(-{r})")
+                }
+            }
+            E::Bin(op, l, r) => format!("({} {} {})", l.render(), op.text(), r.render()),
+            E::Cond(c, t, f) => format!("({} ? {} : {})", c.render(), t.render(), f.render()),
+            E::Index(a, i) => format!("{}[{}]", a.render(), i.render()),
+            E::Select(a, f) => format!("{}.{}", a.render(), f),
+            E::Has(a, f) => format!("has({}.{})", a.render(), f),
+            E::List(xs) => format!("[{}]", xs.iter().map(|x| x.render()).collect::<Vec<_>>().join(", ")),
+            E::Map(es) => format!("{{{}}}", es.iter().map(|(k, v)| format!("{}: {}", k.render(), v.render())).collect::<Vec<_>>().join(", ")),
+            E::Call(n, None, args) => format!("{}({})", n, args.iter().map(|x| x.render()).collect::<Vec<_>>().join(", ")),
+            E::Call(n, Some(r), args) => format!("{}.{}({})", r.render(), n, args.iter().map(|x| x.render()).collect::<Vec<_>>().join(", ")),
+            E::Macro(m, r, v, body) => format!("{}.{}({}, {})", r.render(), m.name(), v, body.iter().map(|x| x.render()).collect::<Vec<_>>().join(", ")),
+            E::Struct(n, fs) => format!("{}{{{}}}", n, fs.iter().map(|(k, v)| format!("{}: {}", k, v.render())).collect::<Vec<_>>().join(", ")),
+        }
+    }
+}
